@@ -1,130 +1,264 @@
-"""Translator for C10: regenerates, from the working tree's src/pyramid/session.py, the table-like facts the session
-model rests on:
+"""Translator for C10: regenerates the behavioural tables the session model rests on by RUNNING the session code of the tree
+under test (src/pyramid/session.py loaded from `src_root` under a private module name, with a fake `time`/`os`, a fake
+serialiser and a fake request), probing it exhaustively over small finite domains — no AST pattern matching, so any
+refactoring that preserves behaviour leaves the tables unchanged and any change of behaviour inside the probed domain
+changes them:
 
- * which `CookieSession` attributes are wrapped by `manage_accessed` / `manage_changed` (assignment form
-   `name = manage_x(dict.name)` and decorator form `@manage_x def name`), which methods are plain;
- * which `self.<method>(…)` / `self[...] = …` calls the bodies of the composite methods make (flash -> setdefault, …);
- * the comparison operators and constants of the three threshold tests (`len(cookieval) > 4064`,
-   `now - renewed > self._timeout`, `now - session.renewed > session._reissue_time`), the `int(time.time())` of the
-   wrappers, and the `if not self._dirty` guard around the callback registration in `changed`.
-
-Anything that does not have the expected shape is emitted as "unknown" (or 0 / false), which makes the `decide`d
-obligations in Props/C10.lean fail.  Python `ast` only.
+ * `behaviour`     for every ISession / dict method the statement's operation list reaches (plus the corner calls
+                   get_csrf_token without a token, pop whose default IS the stored value, pop / pop_flash / __delitem__ of an absent
+                   key, setdefault of a present key): its class, observed on a session loaded from a cookie renewed at 100.0 s
+                   with reissue_time=10, called at 105.75 s, at 120.5 s and (reissue_time=None) at 120.5 s —
+                   "changed"  = dirty, accessed == int(now) (an int), exactly one callback;
+                   "accessed" = not dirty before / dirty after the reissue time, never dirty without reissue, accessed == int(now);
+                   "mark"     = dirty, accessed untouched (changed());   anything else / any unexpected exception = "unknown"
+ * `timeoutProbe`  (T, now, emptied?) for T in {0,1,10} and now around renewed + T (quarter-second grid)
+ * `reissueProbe`  (R, now, dirty after one get?) for R in {0,1,10} and now around renewed + R
+ * `sizeProbe`     (length of the serialised value, cookie set?) around 4064 (fake serialiser of exact lengths)
+ * `excProbe`      (set_on_exception, request.exception present, cookie set?) — all four combinations
+ * `callbacksAfterMany`  response callbacks registered by a view that calls six marking methods
+ * `payloadProbe`  what `_set_cookie` hands to `serializer.dumps` after a read past the reissue time:
+                   (stamp, stamp is an int, created, keys)
+Any exception while probing makes `probeOk = false` (and the affected entry "unknown"), so the `decide`d obligations in
+Props/C10.lean fail closed.  Nothing of this tree needs AST extraction: every fact is observable by running.
 """
-import ast, os
+import importlib.util, os, sys
 
 summary = {}
-DICT_NAMES = set(dir(dict))
 
 
-def _wrapper_of_call(node):
-    """manage_x(dict.name) -> (x, name) | None"""
-    if (isinstance(node, ast.Call) and isinstance(node.func, ast.Name) and node.func.id in ('manage_accessed', 'manage_changed')
-            and len(node.args) == 1 and not node.keywords and isinstance(node.args[0], ast.Attribute)
-            and isinstance(node.args[0].value, ast.Name) and node.args[0].value.id == 'dict'):
-        return node.func.id, node.args[0].attr
-    return None
+class _Clock:
+    q = 0
+
+    def time(self):
+        return self.q / 4
 
 
-def _inner_calls(fn):
-    """names of the methods a body reaches through `self`: self.m(...) -> m ; self[k] = v -> __setitem__ ;
-    del self[k] -> __delitem__ ; self[k] (load) -> __getitem__"""
-    out = []
-    for n in ast.walk(fn):
-        if isinstance(n, ast.Call) and isinstance(n.func, ast.Attribute) and isinstance(n.func.value, ast.Name) and n.func.value.id == 'self':
-            out.append((n.lineno, n.col_offset, n.func.attr))
-        elif isinstance(n, ast.Call) and isinstance(n.func, ast.Attribute) and isinstance(n.func.value, ast.Name) and n.func.value.id == 'dict':
-            out.append((n.lineno, n.col_offset, 'dict.' + n.func.attr))      # bypasses the wrappers
-        elif isinstance(n, ast.Subscript) and isinstance(n.value, ast.Name) and n.value.id == 'self':
-            kind = {ast.Store: '__setitem__', ast.Del: '__delitem__', ast.Load: '__getitem__'}[type(n.ctx)]
-            out.append((n.lineno, n.col_offset, kind))
-    return [x[2] for x in sorted(out)]
+class _Os:
+    def urandom(self, n):
+        return b'\x07' * n
 
 
-def _cmp(node):
-    """Compare with a single operator -> (op name, left src, right src)"""
-    if isinstance(node, ast.Compare) and len(node.ops) == 1:
-        return type(node.ops[0]).__name__, ast.unparse(node.left), ast.unparse(node.comparators[0])
-    return None
+class _Ser:
+    """serialiser with controllable behaviour: loads returns `value` (ValueError when it is _Ser.BAD), dumps records its
+    argument and returns `n` bytes"""
+    BAD = object()
+
+    def __init__(self, value, n=10):
+        self.value, self.n, self.dumped = value, n, []
+
+    def loads(self, b):
+        if self.value is _Ser.BAD:
+            raise ValueError('bad')
+        return self.value
+
+    def dumps(self, v):
+        self.dumped.append(v)
+        return b'x' * self.n
+
+
+class _Req:
+    def __init__(self, cookie=True, exception=None):
+        self.cookies = {'session': 'c'} if cookie else {}
+        self.exception = exception
+        self.callbacks = []
+
+    def add_response_callback(self, cb):
+        self.callbacks.append(cb)
+
+
+class _Resp:
+    def __init__(self):
+        self.cookies = []
+
+    def set_cookie(self, name, **kw):
+        self.cookies.append((name, kw))
+
+
+def _load(src_root):
+    path = os.path.join(src_root, 'pyramid', 'session.py')
+    name = '_c10_session_under_test'
+    spec = importlib.util.spec_from_file_location(name, path)
+    mod = importlib.util.module_from_spec(spec)
+    import warnings
+    sys.modules[name] = mod           # zope.deprecation looks the module up by name while it executes
+    with warnings.catch_warnings():
+        warnings.simplefilter('ignore')
+        spec.loader.exec_module(mod)
+    mod.time = _Clock()
+    mod.os = _Os()
+    return mod
+
+
+STATE = {'a': 1, '_csrft_': 't', '_f_': ['x']}
+# (probe name, state the session is loaded with, call)
+CALLS = [
+    ('get', STATE, lambda s: s.get('a')),
+    ('get/default', STATE, lambda s: s.get('zz', None)),
+    ('__getitem__', STATE, lambda s: s['a']),
+    ('items', STATE, lambda s: list(s.items())),
+    ('values', STATE, lambda s: list(s.values())),
+    ('keys', STATE, lambda s: list(s.keys())),
+    ('__contains__', STATE, lambda s: 'a' in s),
+    ('__len__', STATE, lambda s: len(s)),
+    ('__iter__', STATE, lambda s: list(iter(s))),
+    ('clear', STATE, lambda s: s.clear()),
+    ('update', STATE, lambda s: s.update({'b': 1})),
+    ('setdefault', STATE, lambda s: s.setdefault('b', 1)),
+    ('setdefault/present', STATE, lambda s: s.setdefault('a', 1)),
+    ('pop', STATE, lambda s: s.pop('a')),
+    ('pop/default-is-stored', {'a': None}, lambda s: s.pop('a', None)),
+    ('pop/absent-with-default', STATE, lambda s: s.pop('zz', None)),
+    ('pop/absent', STATE, lambda s: s.pop('zz')),
+    ('popitem', STATE, lambda s: s.popitem()),
+    ('__setitem__', STATE, lambda s: s.__setitem__('b', 1)),
+    ('__delitem__', STATE, lambda s: s.__delitem__('a')),
+    ('__delitem__/absent', STATE, lambda s: s.__delitem__('zz')),
+    ('flash', STATE, lambda s: s.flash('m')),
+    ('flash/no-duplicate', STATE, lambda s: s.flash('x', '', False)),
+    ('pop_flash', STATE, lambda s: s.pop_flash()),
+    ('pop_flash/absent', STATE, lambda s: s.pop_flash('q')),
+    ('peek_flash', STATE, lambda s: s.peek_flash()),
+    ('new_csrf_token', STATE, lambda s: s.new_csrf_token()),
+    ('get_csrf_token', STATE, lambda s: s.get_csrf_token()),
+    ('get_csrf_token/no-token', {'a': 1}, lambda s: s.get_csrf_token()),
+    ('changed', STATE, lambda s: s.changed()),
+    ('invalidate', STATE, lambda s: s.invalidate()),
+]
+
+
+def _session(mod, state, now_q, **opts):
+    """a session loaded from a cookie (renewed 100.0 s, created 100.0 s, `state`) at clock now_q"""
+    ser = _Ser([100.0, 100.0, dict((k, (list(v) if isinstance(v, list) else v)) for k, v in state.items())])
+    factory = mod.BaseCookieSessionFactory(ser, **opts)
+    req = _Req()
+    mod.time.q = now_q
+    return factory(req), req, ser
+
+
+def _observe(mod, state, call, now_q, reissue):
+    s, req, _ = _session(mod, state, 400, timeout=None, reissue_time=reissue)
+    mod.time.q = now_q
+    try:
+        call(s)
+    except KeyError:
+        pass
+    return bool(s._dirty), s.accessed, type(s.accessed) is int, len(req.callbacks)
+
+
+def _classify(mod, state, call):
+    a = _observe(mod, state, call, 423, 10)       # 105.75 s: before the reissue time
+    b = _observe(mod, state, call, 482, 10)       # 120.5 s : after it
+    n = _observe(mod, state, call, 482, None)     # no reissue at all
+    if a[0] and a[1] == 105 and a[2] and a[3] == 1 and b[0] and b[1] == 120 and n[0] and n[3] == 1:
+        return 'changed'
+    if (not a[0]) and a[1] == 105 and a[2] and a[3] == 0 and b[0] and b[1] == 120 and b[2] and b[3] == 1 and (not n[0]) and n[1] == 120:
+        return 'accessed'
+    if a[0] and a[1] == 100.0 and (not a[2]) and a[3] == 1 and n[0] and n[1] == 100.0:
+        return 'mark'
+    return 'unknown'
 
 
 def facts(src_root):
-    path = os.path.join(src_root, 'pyramid', 'session.py')
-    tree = ast.parse(open(path).read())
-    out = {'wrap': [], 'inner': [], 'limit': 0, 'limit_cmp': 'unknown', 'timeout_cmp': 'unknown', 'reissue_cmp': 'unknown',
-           'accessed_int': False, 'changed_int': False, 'changed_guard': False, 'changed_first': False, 'accessed_calls_changed': False,
-           'soe_guard': False}
-    cls = None
-    for n in ast.walk(tree):
-        if isinstance(n, ast.ClassDef) and n.name == 'CookieSession':
-            cls = n
-    if cls is None:
-        out['wrap'].append(('CookieSession', 'unknown'))
+    out = {'ok': True, 'behaviour': [], 'timeout': [], 'reissue': [], 'size': [], 'exc': [], 'callbacks': 99, 'payload': None, 'errors': []}
+    try:
+        mod = _load(src_root)
+    except Exception as e:      # noqa
+        out['ok'] = False
+        out['errors'].append('import: %s: %s' % (type(e).__name__, e))
         return out
-    for st in cls.body:
-        if isinstance(st, ast.Assign):
-            w = _wrapper_of_call(st.value)
-            for t in st.targets:
-                name = t.id if isinstance(t, ast.Name) else None
-                if w is not None:
-                    out['wrap'].append((name or 'unknown', w[0] if (name == w[1]) else 'unknown'))
-                elif name in DICT_NAMES or name in ('flash', 'pop_flash', 'peek_flash', 'new_csrf_token', 'get_csrf_token', 'changed', 'invalidate'):
-                    out['wrap'].append((name, 'unknown'))
-        elif isinstance(st, ast.FunctionDef):
-            decs = st.decorator_list
-            if not decs:
-                kind = 'plain'
-            elif len(decs) == 1 and isinstance(decs[0], ast.Name) and decs[0].id in ('manage_accessed', 'manage_changed'):
-                kind = decs[0].id
-            else:
-                kind = 'unknown'
-            out['wrap'].append((st.name, kind))
-            if st.name not in ('__init__',):
-                out['inner'].append((st.name, _inner_calls(st)))
-            if st.name == '_set_cookie':
-                for n in ast.walk(st):
-                    c = _cmp(n)
-                    if (c and isinstance(n.left, ast.Call) and isinstance(n.left.func, ast.Name) and n.left.func.id == 'len'
-                            and len(n.left.args) == 1 and isinstance(n.left.args[0], ast.Name)
-                            and isinstance(n.comparators[0], ast.Constant) and isinstance(n.comparators[0].value, int)):
-                        out['limit'], out['limit_cmp'] = n.comparators[0].value, c[0]
-                # `if not self._cookie_on_exception: exception = getattr(self.request, 'exception', None); if exception is not None: return False`
-                first = st.body[0]
-                if (isinstance(first, ast.If) and ast.unparse(first.test) == 'not self._cookie_on_exception' and not first.orelse
-                        and len(first.body) == 2 and ast.unparse(first.body[0]) == "exception = getattr(self.request, 'exception', None)"
-                        and isinstance(first.body[1], ast.If) and ast.unparse(first.body[1].test) == 'exception is not None'
-                        and ast.unparse(first.body[1].body[0]) == 'return False'):
-                    out['soe_guard'] = True
-            if st.name == '__init__':
-                for n in ast.walk(st):
-                    c = _cmp(n)
-                    if c and c[1] == 'now - renewed' and c[2] == 'self._timeout':
-                        out['timeout_cmp'] = c[0]
-            if st.name == 'changed':
-                b = st.body
-                if (len(b) == 1 and isinstance(b[0], ast.If) and ast.unparse(b[0].test) == 'not self._dirty' and not b[0].orelse
-                        and ast.unparse(b[0].body[0]) == 'self._dirty = True'
-                        and ast.unparse(b[0].body[-1]) == 'self.request.add_response_callback(set_cookie_callback)'):
-                    out['changed_guard'] = True
-    for fn in tree.body:
-        if isinstance(fn, ast.FunctionDef) and fn.name in ('manage_accessed', 'manage_changed'):
-            inner = [x for x in fn.body if isinstance(x, ast.FunctionDef)]
-            if len(inner) != 1:
-                continue
-            body = inner[0].body
-            srcs = [ast.unparse(x) for x in body]
-            if fn.name == 'manage_accessed':
-                out['accessed_int'] = srcs[:1] == ['session.accessed = now = int(time.time())']
-                for n in ast.walk(inner[0]):
-                    c = _cmp(n)
-                    if c and c[1] == 'now - session.renewed' and c[2] == 'session._reissue_time':
-                        out['reissue_cmp'] = c[0]
-                out['accessed_calls_changed'] = (len(srcs) == 3 and srcs[1] ==
-                    'if session._reissue_time is not None:\n    if now - session.renewed > session._reissue_time:\n        session.changed()'.replace('>', {'Gt': '>', 'GtE': '>=', 'Lt': '<', 'LtE': '<='}.get(out['reissue_cmp'], '>'))
-                    and srcs[2] == 'return wrapped(session, *arg, **kw)')
-            else:
-                out['changed_int'] = srcs[:1] == ['session.accessed = int(time.time())']
-                out['changed_first'] = srcs == ['session.accessed = int(time.time())', 'session.changed()', 'return wrapped(session, *arg, **kw)']
+
+    def guarded(label, f, default):
+        try:
+            return f()
+        except Exception as e:      # noqa
+            out['ok'] = False
+            out['errors'].append('%s: %s: %s' % (label, type(e).__name__, e))
+            return default
+
+    for name, state, call in CALLS:
+        out['behaviour'].append((name, guarded(name, lambda: _classify(mod, state, call), 'unknown')))
+
+    # timeout: renewed at 400 (100.0 s); emptied?
+    def timeout_probe():
+        rows = []
+        for T in (0, 1, 10):
+            for d in (-4, -1, 0, 1, 2, 4, 40):
+                now = 400 + 4 * T + d
+                if now < 400:
+                    continue
+                s, _, _ = _session(mod, {'a': 1}, now, timeout=T, reissue_time=None)
+                data = dict(dict.items(s))
+                if data not in ({}, {'a': 1}) or s.new or s.created != 100.0:
+                    raise ValueError('unexpected session %r' % (data,))
+                rows.append((T, now, data == {}))
+        s, _, _ = _session(mod, {'a': 1}, 10 ** 6, timeout=None, reissue_time=None)
+        rows.append((None, 10 ** 6, dict(dict.items(s)) == {}))
+        return rows
+    out['timeout'] = guarded('timeout', timeout_probe, [])
+
+    def reissue_probe():
+        rows = []
+        for R in (0, 1, 10):
+            for d in (-4, -1, 0, 1, 3, 4, 5, 8):
+                now = 400 + 4 * R + d
+                if now < 400:
+                    continue
+                dirty = _observe(mod, {'a': 1}, lambda s: s.get('a'), now, R)[0]
+                rows.append((R, now, dirty))
+        return rows
+    out['reissue'] = guarded('reissue', reissue_probe, [])
+
+    def size_probe():
+        rows = []
+        for n in (0, 1, 100, 4000, 4060, 4061, 4062, 4063, 4064, 4065, 4066, 4067, 4068, 4095, 4096, 4097, 5000, 100000):
+            s, req, ser = _session(mod, {'a': 1}, 400, timeout=None, reissue_time=None)
+            ser.n = n
+            s['b'] = 1
+            resp = _Resp()
+            try:
+                for cb in req.callbacks:
+                    cb(req, resp)
+                ok = True
+            except ValueError:
+                ok = False
+            if ok != (len(resp.cookies) == 1) or (ok and resp.cookies[0][1].get('value') != 'x' * n):
+                raise ValueError('cookie set / error mismatch at %d' % n)
+            rows.append((n, ok))
+        return rows
+    out['size'] = guarded('size', size_probe, [])
+
+    def exc_probe():
+        rows = []
+        for soe in (True, False):
+            for exc in (None, RuntimeError('x')):
+                s, req, ser = _session(mod, {'a': 1}, 400, timeout=None, reissue_time=None, set_on_exception=soe)
+                s['b'] = 1
+                req.exception = exc
+                resp = _Resp()
+                for cb in req.callbacks:
+                    cb(req, resp)
+                rows.append((soe, exc is not None, len(resp.cookies) == 1))
+        return rows
+    out['exc'] = guarded('exc', exc_probe, [])
+
+    def callbacks_probe():
+        s, req, _ = _session(mod, STATE, 400, timeout=None, reissue_time=0)
+        mod.time.q = 440
+        s.get('a'); s['b'] = 1; s.flash('m'); s.changed(); s.new_csrf_token(); s.invalidate(); s.pop_flash(); s.get_csrf_token()
+        return len(req.callbacks)
+    out['callbacks'] = guarded('callbacks', callbacks_probe, 99)
+
+    def payload_probe():
+        s, req, ser = _session(mod, {'a': 1}, 400, timeout=None, reissue_time=10)
+        mod.time.q = 482
+        s.get('a')
+        resp = _Resp()
+        for cb in req.callbacks:
+            cb(req, resp)
+        (v,) = ser.dumped
+        stamp, created, data = v
+        return (int(stamp * 4), type(stamp) is int, int(created * 4), list(data))
+    out['payload'] = guarded('payload', payload_probe, None)
     return out
 
 
@@ -132,40 +266,48 @@ def _s(x):
     return '"' + x.replace('\\', '\\\\').replace('"', '\\"') + '"'
 
 
+def _b(x):
+    return 'true' if x else 'false'
+
+
+def _opt(x):
+    return 'none' if x is None else '(some %d)' % x
+
+
 def generate(src_root):
     f = facts(src_root)
     summary.clear()
-    summary.update({'methods': len(f['wrap']), 'unknown': [m for m, k in f['wrap'] if k == 'unknown'], 'limit': f['limit']})
-    lines = ['/- GENERATED by extract/c10.py from src/pyramid/session.py — do not edit -/',
+    summary.update({'probed_methods': len(f['behaviour']), 'unknown': [m for m, k in f['behaviour'] if k == 'unknown'],
+                    'ok': f['ok'], 'errors': f['errors'][:5]})
+    pl = f['payload'] or (0, False, 0, ['?'])
+    lines = ['/- GENERATED by extract/c10.py by running src/pyramid/session.py of the tree under test — do not edit -/',
              'namespace Pyr.Session.Gen', '',
-             '/-- (attribute of `CookieSession`, wrapper) in class-body order -/',
-             'def wrapTable : List (String × String) := [',
-             ',\n'.join('  (%s, %s)' % (_s(m), _s(k)) for m, k in f['wrap']),
+             '/-- no probe raised an unexpected exception -/',
+             'def probeOk : Bool := %s' % _b(f['ok']), '',
+             '/-- (probe, observed class) -/',
+             'def behaviour : List (String × String) := [',
+             ',\n'.join('  (%s, %s)' % (_s(m), _s(k)) for m, k in f['behaviour']),
              ']', '',
-             '/-- methods the bodies of the class reach through `self` (in source order) -/',
-             'def innerCalls : List (String × List String) := [',
-             ',\n'.join('  (%s, [%s])' % (_s(m), ', '.join(_s(c) for c in cs)) for m, cs in f['inner']),
-             ']', '',
-             '/-- `if len(cookieval) <cmp> <limit>` in `_set_cookie` -/',
-             'def sizeLimit : Nat := %d' % f['limit'],
-             'def sizeCmp : String := %s' % _s(f['limit_cmp']),
-             '/-- `if now - renewed <cmp> self._timeout` in `__init__` -/',
-             'def timeoutCmp : String := %s' % _s(f['timeout_cmp']),
-             '/-- `if now - session.renewed <cmp> session._reissue_time` in `manage_accessed` -/',
-             'def reissueCmp : String := %s' % _s(f['reissue_cmp']),
-             '/-- `session.accessed = now = int(time.time())` opens `manage_accessed`; then the reissue test calling `session.changed()`; then the wrapped call -/',
-             'def accessedShape : Bool := %s' % ('true' if f['accessed_int'] and f['accessed_calls_changed'] else 'false'),
-             '/-- `manage_changed` is exactly: `session.accessed = int(time.time())`; `session.changed()`; the wrapped call -/',
-             'def changedShape : Bool := %s' % ('true' if f['changed_int'] and f['changed_first'] else 'false'),
-             '/-- `changed` is `if not self._dirty: self._dirty = True; …; self.request.add_response_callback(…)` -/',
-             'def changedGuard : Bool := %s' % ('true' if f['changed_guard'] else 'false'),
-             '/-- `_set_cookie` opens with the `set_on_exception` test returning `False` when `request.exception is not None` -/',
-             'def onExceptionGuard : Bool := %s' % ('true' if f['soe_guard'] else 'false'),
+             '/-- (timeout in seconds, clock in quarter seconds, session emptied) for a cookie renewed at 400 -/',
+             'def timeoutProbe : List (Option Nat × Nat × Bool) := [' + ', '.join('(%s, %d, %s)' % (_opt(t), n, _b(e)) for t, n, e in f['timeout']) + ']',
+             '/-- (reissue_time in seconds, clock in quarter seconds, dirty after one `get`) for a cookie renewed at 400 -/',
+             'def reissueProbe : List (Nat × Nat × Bool) := [' + ', '.join('(%d, %d, %s)' % (r, n, _b(e)) for r, n, e in f['reissue']) + ']',
+             '/-- (length of the serialised value, cookie set rather than ValueError) -/',
+             'def sizeProbe : List (Nat × Bool) := [' + ', '.join('(%d, %s)' % (n, _b(e)) for n, e in f['size']) + ']',
+             '/-- (set_on_exception, request.exception present, cookie set) -/',
+             'def excProbe : List (Bool × Bool × Bool) := [' + ', '.join('(%s, %s, %s)' % (_b(a), _b(b), _b(c)) for a, b, c in f['exc']) + ']',
+             '/-- response callbacks registered by a view that calls eight marking / reading methods -/',
+             'def callbacksAfterMany : Nat := %d' % f['callbacks'],
+             '/-- what `_set_cookie` serialises after a read at 482 of a cookie renewed at 400 (reissue 10): stamp, stamp is int, created, keys -/',
+             'def payloadProbe : Nat × Bool × Nat × List String := (%d, %s, %d, [%s])' % (pl[0], _b(pl[1]), pl[2], ', '.join(_s(k) for k in pl[3])),
              '', 'end Pyr.Session.Gen', '']
     return {'PyramidModel/Gen/C10Wrap.lean': '\n'.join(lines)}
 
 
 if __name__ == '__main__':
-    import sys
-    for k, v in generate(sys.argv[1] if len(sys.argv) > 1 else '/repo/src').items():
+    root = sys.argv[1] if len(sys.argv) > 1 else '/repo/src'
+    if root not in sys.path:
+        sys.path.insert(0, root)
+    for k, v in generate(root).items():
         print(v)
+    print(summary)
